@@ -1006,11 +1006,19 @@ pub fn collect_typedefs(
     report_duplicate_definitions(diagnostics, hir, hir_table);
     predeclare_types(env.current_mut(), hir, hir_table);
 
+    // Traits before everything that can name one: an impl may stand before its trait, in the
+    // same file or in a file of the package that happens to be read earlier.
+    for item in hir.toplevels.iter() {
+        if let hir::Def::TraitDef(trait_def) = hir_table.def(*item) {
+            define_trait(env, diagnostics, trait_def);
+        }
+    }
+
     for item in hir.toplevels.iter() {
         match hir_table.def(*item) {
             hir::Def::EnumDef(enum_def) => define_enum(env, diagnostics, enum_def),
             hir::Def::StructDef(struct_def) => define_struct(env, diagnostics, struct_def),
-            hir::Def::TraitDef(trait_def) => define_trait(env, diagnostics, trait_def),
+            hir::Def::TraitDef(_) => {}
             hir::Def::ImplBlock(impl_block) => {
                 if let Some(trait_name) = &impl_block.trait_name {
                     define_trait_impl(env, diagnostics, impl_block, trait_name, hir_table);
